@@ -13,30 +13,30 @@ timeout: 200
 */
 /*@unit
 name: parse_line
-define: U_PARSE_LINE, VERIF_PWORD1_PRESENT, VERIF_CONF_ANNOT, VERIF_OWN_STRCMP, VERIF_OWN_STRCHR, VERIF_CONF_REBIND, VERIF_LOOKUP_MODEL, VERIF_CONF_PUSH_MODELS
+define: U_PARSE_LINE, VERIF_PWORD1_PRESENT, VERIF_CONF_ANNOT, VERIF_OWN_STRCMP, VERIF_OWN_STRCHR, VERIF_CONF_REBIND, VERIF_LOOKUP_MODEL, VERIF_CONF_PUSH_MODELS, VERIF_CONF_CALL_MODELS
 src: conf.c
 enforce: spifconf_parse_line
-replace: spifconf_shell_expand, spifconf_open_file
+prepass: --replace-calls spifconf_shell_expand:v_m_shell_expand --replace-calls spifconf_open_file:v_m_open_file
 backend: sat
 timeout: 900
 funcs: v_ctx_lookup, spifconf_register_context_state, spifconf_register_fstate
 */
 /*@unit
 name: parse_line_preproc_again
-define: U_PARSE_LINE, U_PL_EXC, VERIF_PWORD1_PRESENT, VERIF_CONF_ANNOT, VERIF_OWN_STRCMP, VERIF_OWN_STRCHR, VERIF_CONF_REBIND, VERIF_LOOKUP_MODEL, VERIF_CONF_PUSH_MODELS
+define: U_PARSE_LINE, U_PL_EXC, VERIF_PWORD1_PRESENT, VERIF_CONF_ANNOT, VERIF_OWN_STRCMP, VERIF_OWN_STRCHR, VERIF_CONF_REBIND, VERIF_LOOKUP_MODEL, VERIF_CONF_PUSH_MODELS, VERIF_CONF_CALL_MODELS
 src: conf.c
 enforce: spifconf_parse_line
-replace: spifconf_shell_expand, spifconf_open_file
+prepass: --replace-calls spifconf_shell_expand:v_m_shell_expand --replace-calls spifconf_open_file:v_m_open_file
 backend: sat
 timeout: 900
 quick: no
 */
 /*@unit
 name: parse_line_bare_pct
-define: U_PARSE_LINE, VERIF_PWORD1_ABSENT, VERIF_CONF_ANNOT, VERIF_OWN_STRCMP, VERIF_OWN_STRCHR, VERIF_CONF_REBIND, VERIF_LOOKUP_MODEL, VERIF_CONF_PUSH_MODELS
+define: U_PARSE_LINE, U_PL_BARE_PCT, VERIF_PWORD1_ABSENT, VERIF_CONF_ANNOT, VERIF_OWN_STRCMP, VERIF_OWN_STRCHR, VERIF_CONF_REBIND, VERIF_LOOKUP_MODEL, VERIF_CONF_PUSH_MODELS, VERIF_CONF_CALL_MODELS
 src: conf.c
 enforce: spifconf_parse_line
-replace: spifconf_shell_expand, spifconf_open_file
+prepass: --replace-calls spifconf_shell_expand:v_m_shell_expand --replace-calls spifconf_open_file:v_m_open_file
 backend: sat
 timeout: 900
 quick: no
